@@ -34,6 +34,8 @@ def obligations(tier):
     import importlib as _il
     C18 = _il.import_module("props.C18")
     o += [x for x in C18.own_obligations(tier) if x.name == "ktable_lazy_create"]
+    C01 = _il.import_module("props.C01")
+    o += [x for x in C01.own_obligations(tier) if x.name in ("create_thread_create", "create_task_create")]   # the key table pointer of a new unit is initialised BEFORE the unit is published
     return o
 
 MANIFEST_ENTRY = {
